@@ -293,6 +293,22 @@ func C06(c *core.Ctx) {
 				rv, _ := core.CallArgs(cc)
 				return core.Same(rv, entry)
 			}, nil)
+			if !fr.OK {
+				// the store sits in a walk over the whole subtree (removeFaceRoutes): the
+				// recompute may follow the walk — started from the node the walk started
+				// from, it recurses into every child (recompute-recurses-into-all-children)
+				if site := treeWalkSite(p, fn); site != nil {
+					walkRecv, _ := core.CallArgs(site.Common())
+					fr = core.MustFollowDeep(core.RootOf(site.Parent()), core.After(site), func(x ssa.Instruction) bool {
+						cc, ok := core.IsCall(x, core.CalleeID{Pkg: "fw/table", Recv: "RibEntry", Name: "updateNexthopsEnc"})
+						if !ok {
+							return false
+						}
+						rv, _ := core.CallArgs(cc)
+						return walkRecv != nil && core.Same(rv, walkRecv)
+					}, nil)
+				}
+			}
 			c.Decide(fr.OK, "R6.4", fmt.Sprintf("mutation-recomputes:%s:%s", core.FuncName(fn), what), c.Pos(in), "store to "+what+" is followed by updateNexthopsEnc of that entry on all exits", core.FuncName(fn)+" changes a route ("+what+") without recomputing the entry's next hops on some path: the FIB no longer mirrors the RIB")
 		})
 	}
@@ -460,4 +476,48 @@ func ribCleanupWorker(p *core.Prog) *ssa.Function {
 		}
 	}
 	return nil
+}
+
+// treeWalkSite: fn calls itself (a walk over a subtree) and has exactly one call site
+// outside itself; that site is where the walk is started.
+func treeWalkSite(p *core.Prog, fn *ssa.Function) ssa.CallInstruction {
+	rec := false
+	var outside []ssa.CallInstruction
+	for _, ci := range p.Callers(fn) {
+		if ci.Parent() == fn {
+			rec = true
+		} else {
+			outside = append(outside, ci)
+		}
+	}
+	if rec && len(outside) == 1 {
+		return outside[0]
+	}
+	return nil
+}
+
+// prunesSubtree: g is a walk over a subtree of the RIB that calls pruneIfEmpty on every
+// node it visits (on all paths from its entry).
+func prunesSubtree(p *core.Prog, g *ssa.Function) bool {
+	if g == nil || g.Blocks == nil {
+		return false
+	}
+	rec := false
+	core.Instrs(g, func(in ssa.Instruction) {
+		if ci, ok := in.(ssa.CallInstruction); ok && ci.Common().StaticCallee() == g {
+			rec = true
+		}
+	})
+	if !rec {
+		return false
+	}
+	fr := core.MustFollow(g, core.Point{Block: g.Blocks[0], Idx: 0}, func(x ssa.Instruction) bool {
+		cc, ok := core.IsCall(x, core.CalleeID{Pkg: "fw/table", Recv: "RibEntry", Name: "pruneIfEmpty"})
+		if !ok {
+			return false
+		}
+		rv, _ := core.CallArgs(cc)
+		return len(g.Params) > 0 && core.Same(rv, g.Params[0])
+	}, nil)
+	return fr.OK
 }
